@@ -91,10 +91,14 @@ class Ctx:
         return f
 
     def floor(self, rule, count, minimum, what=""):
-        self.floors.append((rule, count, minimum, what))
-        if count < minimum:
+        # `minimum` is the count confirmed by hand on the pinned tree.  Small populations must be found completely (a
+        # vanished anchor is an analysis error, never a silent pass); large ones may shrink by a fifth before the check
+        # calls itself broken, so that deleting a deprecated specifier / class / rule does not break the verifier.
+        need = minimum if minimum <= 8 else -(-minimum * 4 // 5)
+        self.floors.append((rule, count, need, what))
+        if count < need:
             raise AnalysisError(
-                f"instance floor not met for {rule}: matched {count} < {minimum} confirmed by hand ({what})"
+                f"instance floor not met for {rule}: matched {count} < {need} ({what}; {minimum} confirmed by hand)"
             )
 
     def note(self, text):
